@@ -3,7 +3,11 @@ package props
 import (
 	"fmt"
 	"strings"
+	"time"
 
+	"google.golang.org/grpc/codes"
+
+	"verifsim/simnet"
 	"verifsim/simrt"
 )
 
@@ -25,6 +29,10 @@ func init() {
 }
 
 func runC10(r *R) {
+	if (r.Mode == "" && r.W.Draw(4) == 0) || r.Mode == "grpc" {
+		c10GRPC(r)
+		return
+	}
 	faults := r.F.Biased(2, 1, 2) == 1
 	if r.Mode == "faults" {
 		faults = true
@@ -167,6 +175,179 @@ func runC10(r *R) {
 				r.Fail(cls, "a sample tagged %q has proto code %d, net code %d, error %q; the peer's behaviour for that tag: %s (connection faults: %q)", t, s.Proto, s.Net, clip(s.Err), strings.Join(bs, "; "), sp.ConnFaults)
 				break
 			}
+		}
+	}
+}
+
+// ---- gRPC clause: the documented mapping of call status to HTTP-style codes, tags, one sample per call ----
+
+var c10Codes = []codes.Code{codes.OK, codes.Canceled, codes.Unknown, codes.InvalidArgument, codes.DeadlineExceeded, codes.NotFound, codes.AlreadyExists, codes.PermissionDenied,
+	codes.ResourceExhausted, codes.FailedPrecondition, codes.Aborted, codes.OutOfRange, codes.Unimplemented, codes.Internal, codes.Unavailable, codes.DataLoss, codes.Unauthenticated}
+
+type grpcPlan struct {
+	Entries  int
+	Passes   int
+	Inst     int
+	Scenario bool
+	Codes    []codes.Code    // status the server answers entry i with
+	Slow     []time.Duration // handler delay (beyond the timeout: DeadlineExceeded at the client)
+	Reset    []bool          // the connection is reset while the call is in flight
+	Timeout  time.Duration
+	Shared   bool
+}
+
+func genGRPCPlan(r *R, faults bool) grpcPlan {
+	w, f := r.W, r.F
+	p := grpcPlan{Entries: 1 + w.Draw(8), Passes: 1 + w.Draw(2), Inst: 1 + w.Draw(4), Scenario: w.Draw(3) == 0, Timeout: []time.Duration{300 * time.Millisecond, time.Second}[w.Draw(2)], Shared: w.Draw(4) == 0}
+	for i := 0; i < p.Entries; i++ {
+		p.Codes = append(p.Codes, c10Codes[f.Draw(len(c10Codes))])
+		slow, reset := time.Duration(0), false
+		if faults {
+			switch f.Draw(8) {
+			case 0:
+				slow = p.Timeout + 200*time.Millisecond
+			case 1:
+				slow = p.Timeout / 3
+			case 2:
+				reset = true
+			}
+		}
+		p.Slow = append(p.Slow, slow)
+		p.Reset = append(p.Reset, reset)
+	}
+	return p
+}
+
+type grpcOutcome struct {
+	Plan    grpcPlan
+	Res     *httpPoolResult
+	Calls   []grpcCall
+	TagOf   []string // expected sample tag per entry
+	Expect  []int    // expected proto code per entry
+	Fired   int
+	MayFail []bool // entries whose call may fail for transport reasons (reset): 503/Unavailable-like or the scripted code
+}
+
+// runGRPCPlan fires the entries (grpc/json ammo, or a gRPC scenario with one call per entry) at the scripted server.
+func runGRPCPlan(r *R, p grpcPlan) *grpcOutcome {
+	out := &grpcOutcome{Plan: p}
+	target := "10.0.0.30:9090"
+	files := map[string][]byte{}
+	var ammo, gun map[string]interface{}
+	if p.Scenario {
+		var b strings.Builder
+		b.WriteString("requests: [ ]\ncalls:\n")
+		for i := 0; i < p.Entries; i++ {
+			fmt.Fprintf(&b, "  - name: c%d\n    tag: tg%d\n    call: target.TargetService.Hello\n    metadata:\n      marker: m%d\n    payload: '{\"name\": \"n%d\"}'\n", i, i, i, i)
+			out.TagOf = append(out.TagOf, fmt.Sprintf("sc.tg%d", i))
+		}
+		// one scenario running every call in order; a failing call does not stop a gRPC scenario unless a postprocessor fails
+		b.WriteString("scenarios:\n  - name: sc\n    min_waiting_time: 0\n    requests:\n")
+		for i := 0; i < p.Entries; i++ {
+			fmt.Fprintf(&b, "      - c%d(1)\n", i)
+		}
+		files["/ammo/scenario.yaml"] = []byte(b.String())
+		ammo = map[string]interface{}{"type": "grpc/scenario", "file": "/ammo/scenario.yaml", "limit": p.Passes}
+		gun = map[string]interface{}{"type": "grpc/scenario", "target": target, "timeout": p.Timeout.String()}
+	} else {
+		var b strings.Builder
+		for i := 0; i < p.Entries; i++ {
+			fmt.Fprintf(&b, "{\"tag\": \"tg%d\", \"call\": \"target.TargetService.Hello\", \"metadata\": {\"marker\": \"m%d\"}, \"payload\": {\"name\": \"n%d\"}}\n", i, i, i)
+			out.TagOf = append(out.TagOf, fmt.Sprintf("tg%d", i))
+		}
+		files["/ammo/grpc.json"] = []byte(b.String())
+		ammo = map[string]interface{}{"type": "grpc/json", "file": "/ammo/grpc.json", "passes": p.Passes}
+		gun = map[string]interface{}{"type": "grpc", "target": target, "timeout": p.Timeout.String()}
+	}
+	if p.Shared && !p.Scenario {
+		gun["shared-client"] = map[string]interface{}{"enabled": true, "client-number": 1}
+	}
+	for i := 0; i < p.Entries; i++ {
+		exp := grpcDocMapping[p.Codes[i]]
+		if p.Slow[i] > p.Timeout {
+			exp = 504 // the client's deadline expires first
+		}
+		out.Expect = append(out.Expect, exp)
+		out.MayFail = append(out.MayFail, p.Reset[i])
+	}
+	out.Fired = p.Entries * p.Passes
+	var tgt *grpcTarget
+	out.Res = runHTTPPool(r, httpPoolSpec{Ammo: ammo, Gun: gun, Instances: p.Inst, Tokens: out.Fired + 2, Files: files, Horizon: time.Hour},
+		func(nw *simnet.Net) { nw.Latency = 500 * time.Microsecond },
+		func(nw *simnet.Net) {
+			tgt = startGRPCTarget(nw, target, func(n int, c *grpcCall) grpcAnswer {
+				i := -1
+				fmt.Sscanf(strings.Join(c.MD["marker"], ""), "m%d", &i)
+				if i < 0 || i >= p.Entries {
+					return grpcAnswer{}
+				}
+				if p.Reset[i] {
+					// the connection this call arrived on is reset while the call is in flight
+					for _, cn := range nw.Conns() {
+						if cn.BytesC2S() > 0 && cn.Index >= 1000 {
+							cn.Reset()
+						}
+					}
+					return grpcAnswer{Code: p.Codes[i], Delay: 50 * time.Millisecond}
+				}
+				return grpcAnswer{Code: p.Codes[i], Delay: p.Slow[i]}
+			})
+		})
+	if tgt != nil {
+		out.Calls = tgt.Calls()
+	}
+	for i := range p.Codes {
+		r.Note("grpc-status:" + p.Codes[i].String())
+		if p.Slow[i] > p.Timeout {
+			r.Fault("grpc:handler-slower-than-timeout", len(out.Calls) > 0)
+		}
+		if p.Reset[i] {
+			r.Fault("grpc:connection-reset-in-flight", len(out.Calls) > 0)
+		}
+	}
+	return out
+}
+
+func c10GRPC(r *R) {
+	p := genGRPCPlan(r, r.F.Draw(3) == 0)
+	r.Sample(map[string]any{"mode": "grpc", "scenario": p.Scenario, "entries": p.Entries, "passes": p.Passes, "instances": p.Inst, "codes": fmt.Sprint(p.Codes), "slow": fmt.Sprint(p.Slow), "reset": fmt.Sprint(p.Reset), "timeout": p.Timeout.String()})
+	r.NonTrivial()
+	out := runGRPCPlan(r, p)
+	if c20Infra(r, out.Res, "grpc") {
+		return
+	}
+	byTag := map[string][]recSample{}
+	for _, s := range out.Res.Samples {
+		byTag[s.Tags] = append(byTag[s.Tags], s)
+	}
+	known := map[string]bool{}
+	for i, t := range out.TagOf {
+		known[t] = true
+		ss := byTag[t]
+		if len(ss) != p.Passes {
+			r.Fail("grpc/sample-count", "entry %d (tag %s, server status %s) produced %d samples in %d passes", i, t, p.Codes[i], len(ss), p.Passes)
+			continue
+		}
+		for _, s := range ss {
+			if s.Proto == out.Expect[i] {
+				continue
+			}
+			if out.MayFail[i] && (s.Proto == 503 || s.Proto == 500 || s.Proto == 499 || s.Proto == 504) {
+				continue // the connection was reset under the call: a transport-level status, whichever grpc-go reports
+			}
+			anyReset := false
+			for _, rs := range p.Reset {
+				anyReset = anyReset || rs
+			}
+			if anyReset && (s.Proto == 503 || s.Proto == 504) {
+				continue // another entry's reset hit the shared connection while this call was in flight or reconnecting
+			}
+			r.Fail("grpc/status-mapping/"+p.Codes[i].String(), "the server answered entry %d with status %s; the documented mapping gives %d, the sample has proto code %d (handler delay %v, timeout %v)", i, p.Codes[i], out.Expect[i], s.Proto, p.Slow[i], p.Timeout)
+		}
+	}
+	for t, ss := range byTag {
+		if !known[t] {
+			r.Fail("grpc/tag", "%d samples carry tag %q; the entries produce %v", len(ss), t, out.TagOf)
 		}
 	}
 }
